@@ -45,6 +45,13 @@ pub fn run(ctx: &Ctx) -> i32 {
         // TLS transport leg: the tlswire cases, only panics count here
         total.merge(run_generated(ctx, &TlsPanics, "tls-transport", crate::engines::tlswire::strategy, ctx.cases(20_000, 600_000), 300));
     }
+    if ctx.tier == Tier::Thorough && std::env::var_os("VERIF_NO_FUZZ").is_none() {
+        // coverage-guided leg: byte input decoded into a request (hosts taken verbatim from the input)
+        let mut s1 = vec![0x80u8, 9, 1, 0, 0, 2, 3, 0, 6, 0, 0, 0];
+        s1.extend_from_slice(b"[::1]%41x");
+        let seeds: Vec<Vec<u8>> = vec![s1, vec![1, 4, 3, 0, 0, 9, 5, 7, 6, 3, 9, 0xff], (0..60u32).map(|i| (i * 37 % 251) as u8).collect()];
+        total.merge(run_fuzz_leg(ctx, "fz_req", "reqgrammar", Some(prop), ctx.cases(0, 100_000), 64, seeds));
+    }
     let (rule, mins): (&str, Vec<(&'static str, f64)>) = if prop == "C13" {
         (
             "request = scheme {http,https,ws,wss,ftp,custom} x host {names, IPv4, bracketed IPv6, unusual URI-legal} x port {absent, default, other} x path x query x URI form {absolute, origin, authority, asterisk} x method (incl. CONNECT, OPTIONS, extension) x version (all five constants) x pre-set headers (caller Host, Connection, Keep-Alive, Proxy-Connection, Transfer-Encoding, Upgrade, x-custom) x connection outcome (request version x ALPN); legs: public SetHostHeader/Http2Checks/Http1Checks layers over a stub connection, ConnectionPoolService (with and without pool) and ConnectorService over stub transport/protocol, and the real HttpConnectionBuilder + RequestExecutor with the client's bytes captured on the wire (preface / request line / Host header parsed). non-trivial = anything but a plain GET http://name/ over HTTP/1.1 without pre-set headers; distinct by hash of the case",
